@@ -718,7 +718,8 @@ namespace Clipper2Lib {
   {
     typename Path<T>::size_type idx = 0;
     double max_d = 0;
-    while (end > begin && path[begin] == path[end]) flags[end--] = false;
+    while (end > begin && path[begin] == path[end]) --end;
+    flags[end] = true;
     for (typename Path<T>::size_type i = begin + 1; i < end; ++i)
     {
       // PerpendicDistFromLineSqrd - avoids expensive Sqrt()
